@@ -194,6 +194,17 @@ func (r *rng) item(p profile, w, h int) (int, string) {
 	case kOtherC0:
 		return kind, r.pick("\x07", "\x00", "\x0b", "\x05", "\x01", "\x1a", "\x0e", "\x0f")
 	case kCsiMove:
+		if r.chance(1, 7) {
+			// park the cursor (and often the saved cursor) near the far corner: what a later shrink has to bring back in
+			s := fmt.Sprintf("\x1b[%d;%dH", maxInt(1, h-r.n(2)), maxInt(1, w-r.n(2)))
+			if r.chance(2, 3) {
+				s += "\x1b[s"
+			}
+			if r.chance(1, 2) {
+				s += fmt.Sprintf("\x1b[%d;%dH", 1+r.n(h), 1+r.n(w))
+			}
+			return kind, s
+		}
 		switch r.n(9) {
 		case 0:
 			return kind, "\x1b[" + r.param(h) + "A"
@@ -260,8 +271,33 @@ func (r *rng) item(p profile, w, h int) (int, string) {
 		}
 		return kind, s + r.pick("h", "l")
 	case kAltScr:
+		if r.chance(1, 3) {
+			// the screen switch inside a parameter list, repeated or mixed with other modes:
+			// every parameter is applied in order against the state the previous one left
+			n := 2 + r.n(3)
+			s := "\x1b[?"
+			for i := 0; i < n; i++ {
+				if i > 0 {
+					s += ";"
+				}
+				s += r.pick("1049", "1049", "1049", "25", "7", "1000", "47", "1047", "1048", "")
+			}
+			return kind, s + r.pick("h", "l")
+		}
 		return kind, "\x1b[?1049" + r.pick("h", "l")
 	case kQuery:
+		if r.chance(1, 3) {
+			// queries with several, empty or unusual parameters: only the first parameter selects the report
+			s := "\x1b[" + r.pick("", "", "", ">", "?")
+			np := 1 + r.n(3)
+			for i := 0; i < np; i++ {
+				if i > 0 {
+					s += ";"
+				}
+				s += r.pick("", "0", "1", "5", "6", "5", "6")
+			}
+			return kind, s + r.pick("n", "n", "c", "u")
+		}
 		return kind, r.pick("\x1b[c", "\x1b[0c", "\x1b[>c", "\x1b[5n", "\x1b[6n", "\x1b[?u", "\x1b[1c", "\x1b[>0c", "\x1b[6n", "\x1b[n", "\x1b[7n")
 	case kKbd:
 		if r.chance(1, 6) {
@@ -286,9 +322,38 @@ func (r *rng) item(p profile, w, h int) (int, string) {
 			return kind, "\x1b[?u"
 		}
 	case kString:
+		if r.chance(1, 3) {
+			// the ECMA-48 CSI grammar: optional private marker, parameters (digits ; :), 0-2 intermediates, any final byte
+			s := "\x1b["
+			if r.chance(1, 3) {
+				s += r.pick("?", ">", "<", "=")
+			}
+			np := r.n(4)
+			for i := 0; i < np; i++ {
+				if i > 0 {
+					s += r.pick(";", ";", ":")
+				}
+				if r.chance(4, 5) {
+					s += fmt.Sprint(r.n(40))
+				}
+			}
+			ni := r.n(3)
+			for i := 0; i < ni; i++ {
+				s += string(rune(0x20 + r.n(16)))
+			}
+			// finals, with the ends of the range over-represented
+			f := 0x40 + r.n(63)
+			switch r.n(6) {
+			case 0:
+				f = 0x40
+			case 1:
+				f = 0x7e
+			}
+			return kind, s + string(rune(f))
+		}
 		switch r.n(6) {
 		case 0:
-			return kind, "\x1b]" + r.pick("0", "2", "6", "7", "4", "52", "", "10", "112", "9999999999999999999999") + ";" + r.text(p.wide, 6) + r.pick("\x07", "\x1b\\")
+			return kind, "\x1b]" + r.pick("0", "2", "6", "7", "4", "52", "", "10", "112", "9999999999999999999999", "18446744073709551616", "18446744073709551618", "18446744073709551622", "18446744073709551623", "4294967296", "4294967298", "00", "07") + ";" + r.text(p.wide, 6) + r.pick("\x07", "\x1b\\")
 		case 1:
 			return kind, "\x1bP" + r.text(false, 5) + "\x1b\\"
 		case 2:
@@ -362,7 +427,20 @@ func (r *rng) genCase(id string, p profile, mode, grid int) genCase {
 			if r.chance(1, 2) {
 				pre += r.sgr()
 			}
-			pre += r.text(p.wide, w)
+			if p.wide && r.chance(1, 4) {
+				// a row of double-width glyphs at either parity: any later cut of the row
+				// (resize, erase, delete, overwrite) lands inside one of them
+				col := 0
+				if r.chance(1, 2) {
+					pre += "a"
+					col = 1
+				}
+				for ; col+2 <= w; col += 2 {
+					pre += r.pick("日", "本", "🐹", "語")
+				}
+			} else {
+				pre += r.text(p.wide, w)
+			}
 			if y+1 < h {
 				pre += "\r\n"
 			}
@@ -467,7 +545,7 @@ var profiles = map[string]profile{
 	"c07":     {wide: true, step: true, prefill: true, maxItems: 12, weights: weights(kText, 25, kSgr, 45, kErase, 15, kCsiMove, 10, kScroll, 5)},
 	"c09":     {wide: true, step: true, prefill: false, maxItems: 12, weights: weights(kText, 35, kString, 55, kOtherC0, 10)},
 	"c14":     {wide: true, cutAny: true, maxItems: 14, mask: 1<<1 | 1<<2 | 1<<4 | 1<<5, weights: weights(kText, 20, kCsiMove, 20, kQuery, 30, kKbd, 10, kAltScr, 5, kSgr, 5, kMode, 5, kString, 5)},
-	"c17":     {wide: true, step: true, prefill: true, maxItems: 14, weights: weights(kText, 25, kMode, 30, kAltScr, 20, kCsiMove, 8, kKbd, 6, kMargins, 4, kSgr, 4, kErase, 3)},
+	"c17":     {wide: true, step: true, prefill: true, maxItems: 18, weights: weights(kText, 22, kMode, 28, kAltScr, 20, kCsiMove, 8, kKbd, 16, kMargins, 4, kSgr, 4, kErase, 3)},
 	"c18":     {wide: true, step: true, prefill: true, maxItems: 10, weights: weights(kText, 25, kResize, 40, kCsiMove, 15, kMargins, 10, kC0Move, 5, kAltScr, 5)},
 	"c19":     {wide: false, step: true, maxItems: 60, mask: 1<<1 | 1<<2 | 1<<4 | 1<<5, weights: weights(kKbd, 80, kAltScr, 10, kText, 5, kQuery, 5)},
 	"c08":     {wide: true, cutAny: true, maxItems: 14, weights: weights(kText, 35, kC0Move, 8, kOtherC0, 2, kCsiMove, 12, kErase, 10, kScroll, 6, kMargins, 3, kSgr, 10, kMode, 5, kAltScr, 2, kQuery, 4, kKbd, 2, kString, 6)},
